@@ -16,6 +16,7 @@ LEVEL_TEXT = (
     'Because the Adj-RIB-Out never hands the packer more than one MP route (or a mixed set) at a time, a third of the plans ("direct") '
     'take the live session\'s real Negotiated object and call UpdateCollection.messages() on one collection mixing IPv4, MP families, '
     'announces and withdraws with counts around what fills a message and attribute blocks leaving 5-300 bytes of room; same oracle.'
+    " An enumerated grid steps the room left by the attributes through the MP attribute's extended-length switch; the packer is also handed routes of a family the peer did not offer."
 )
 LEVEL_NOTE = 'trusts: reference codec; routes whose attribute block is within 48 bytes of the point where not even one prefix fits may legitimately be sent or skipped (either is accepted), beyond that the verdict is strict'
 DESIGN_REF = 'DESIGN.md section 5, C09'
